@@ -326,7 +326,12 @@ def socket_run(P, rec, r, size, nclients, inject, unix=False):
         tok = "c%d" % i
         try:
             c = wire.RawClient(fx.location, timeout=20.0)
-            m = c.handshake("svc", ser)
+            # every seventh client presents a connect message far larger than the socket buffers (a big per-proxy handshake object): it is
+            # served, or told why not, like everybody else
+            big = i % 7 == 5
+            if big:
+                rec.count("clients_with_huge_connect_message")
+            m = c.handshake("svc", ser, handshake="h" * ((600 * 1024) if unix else (12 * 1024 * 1024))) if big else c.handshake("svc", ser)
             if m.type == wire.CONNECTOK:
                 a = c.invoke("svc", "enter", (tok,), {}, ser)
                 time.sleep(hold)
